@@ -242,11 +242,13 @@ func (u *Unreliable) WriteMsgUDP(b, oob []byte, addr *net.UDPAddr) (n, oobn int,
 		return 0, 0, io.EOF
 	}
 
-	dataLength := uint16(len(b))
-	if uint16(len(b)) > MaxFrameDataLength {
+	// Compare the untruncated length: a message of 65536+k bytes would
+	// otherwise pass as one of k bytes.
+	if len(b) > int(MaxFrameDataLength) {
 		err = transport.ErrBufOverflow
 		return n, oobn, err
 	}
+	dataLength := uint16(len(b))
 
 	pkt := frame{
 		tubeID: u.id,
